@@ -96,6 +96,45 @@ pub fn hostile_history(rng: &mut Rng, pools: &Pools, corpus: &[Vec<Vec<u8>>]) ->
             let b = if mutate_it && rng.chance(1, 3) { mutate(rng, b, &o) } else { b.clone() };
             ops.push((rng.usize(np), b));
         }
+    } else if fam < 80 {
+        // buffers packed with minimal packets of every version (header-only IPFIX messages whose
+        // length field says 0..=19, V5/V7/V9 with count 0), 2..400 of them, optionally with a short tail
+        family = "minchain";
+        let n = 1 + rng.usize(3);
+        for _ in 0..n {
+            let k = match rng.below(4) {
+                0 => 2 + rng.usize(8),
+                1 => 8 + rng.usize(60),
+                _ => 2 + rng.usize(400),
+            };
+            let mono: Option<u16> = if rng.chance(1, 2) { Some(*rng.pick(&[5u16, 7, 9, 10, 10])) } else { None };
+            let mut b = vec![];
+            for _ in 0..k {
+                let v = mono.unwrap_or_else(|| *rng.pick(&[5u16, 7, 9, 10]));
+                b.extend_from_slice(&v.to_be_bytes());
+                match v {
+                    10 => {
+                        let l: u16 = if rng.chance(1, 3) { rng.below(20) as u16 } else { 16 };
+                        b.extend_from_slice(&l.to_be_bytes());
+                        b.extend(rng.bytes(12));
+                    }
+                    9 => {
+                        b.extend_from_slice(&[0, 0]);
+                        b.extend(rng.bytes(16));
+                    }
+                    _ => {
+                        b.extend_from_slice(&[0, 0]);
+                        b.extend(rng.bytes(20));
+                    }
+                }
+            }
+            if rng.chance(1, 4) {
+                let t = 1 + rng.usize(15);
+                b.extend(rng.bytes(t));
+            }
+            b.truncate(65535);
+            ops.push((rng.usize(np), b));
+        }
     } else {
         family = "conf";
         let mut ex = Exporter::new();
